@@ -458,6 +458,25 @@ class C14(core.PropBase):
         s = render(rng, tree_tokens(t), BLANKS_ASCII, p=0.4)
         return {"k": "dims", "params": params, "s": s, "assoc": tree_has_assoc(t)}
 
+    def rand_seq(self, rng):
+        """call SEQUENCES in one process: a space, then spaces with the same combination text and the same
+        lengths position by position but the names declared in another order (so the name -> length map
+        differs), then the first again.  Anything remembered between calls about a 'shape' shows up here."""
+        first = self.rand_dims(rng)
+        while len(first["params"]) < 2:
+            first = self.rand_dims(rng)
+        seq = [first]
+        names = [p[0] for p in first["params"]]
+        for _ in range(rng.randint(1, 3)):
+            perm = names[:]
+            rng.shuffle(perm)
+            if rng.random() < 0.5:
+                perm = perm[1:] + perm[:1]
+            seq.append({"k": "dims", "s": first["s"], "assoc": first.get("assoc"),
+                        "params": [[perm[i], p[1], p[2]] for i, p in enumerate(first["params"])]})
+        seq.append(dict(first))
+        return {"k": "seq", "seq": seq, "assoc": first.get("assoc")}
+
     def rand_vtree(self, rng):
         n = rng.choice([1, 2, 3, 4, 6, 9, 16])
         names = [rng.choice(NAMES[:10]) for _ in range(n)] if rng.random() < 0.3 else rng.sample(NAMES, n)
@@ -495,6 +514,8 @@ class C14(core.PropBase):
             yield self.rand_dims(rng)
         for _ in range(60000 if thorough else 6000):
             yield self.rand_vtree(rng)
+        for _ in range(20000 if thorough else 2500):
+            yield self.rand_seq(rng)
 
     def rule(self, tier):
         a, b = (9, 7) if tier == "thorough" else (7, 6)
@@ -506,7 +527,8 @@ class C14(core.PropBase):
                 "for 1-16 declared parameters with exact / unknown+missing / missing / extra / duplicate identifiers, "
                 "foreign characters, padding to 1279..1281 characters, 16 names of 60-64 characters; create_job on "
                 "balanced-by-construction and perturbed range lengths (INT list, INT range expression, INT range "
-                "expression over a job parameter, STRING, FLOAT, PATH); _validate_expr_tree with missing/zero lengths. "
+                "expression over a job parameter, STRING, FLOAT, PATH); _validate_expr_tree with missing/zero lengths; call sequences in one process "
+                "(a space, the same combination text and lengths-by-position with the names declared in another order, the first again). "
                 "distinct = by case; non-trivial = expression with an operator or parenthesis (parse), any template "
                 "verdict, tree with an association (dims/vtree), string of >= 2 characters (charset)")
 
@@ -528,6 +550,8 @@ class C14(core.PropBase):
             return any(ch in case["s"] for ch in "*(),")
         if k == "charset":
             return len(case["s"]) >= 2
+        if k == "seq":
+            return True
         if k in ("dims", "vtree"):
             return case.get("assoc", "(" in case["s"])
         return True
@@ -543,6 +567,8 @@ class C14(core.PropBase):
                 return self.impl_decode(t)[0]
             if k == "dims":
                 return self.impl_dims(case)
+            if k == "seq":
+                return ["seq", [self.impl(c) for c in case["seq"]]]
             if k == "vtree":
                 return self.impl_vtree(case)
             if k == "charset":
@@ -605,6 +631,8 @@ class C14(core.PropBase):
     # ------------------------------------------------------------ model observables
     def requests(self, case):
         k = case["k"]
+        if k == "seq":
+            return [r for c in case["seq"] for r in self.requests(c)]
         s = core.cps(case["s"])
         if k == "parse":
             return [["parse", s]]
@@ -621,6 +649,13 @@ class C14(core.PropBase):
 
     def model_obs(self, case, replies):
         k = case["k"]
+        if k == "seq":
+            out, at = [], 0
+            for c in case["seq"]:
+                n = len(self.requests(c))
+                out.append(self.model_obs(c, replies[at:at + n]))
+                at += n
+            return ["seq", out]
         r = replies[0]
         if isinstance(r, list) and r and r[0] == "driver-error":
             return ["driver", r]
@@ -654,6 +689,8 @@ class C14(core.PropBase):
 
     def classify_case(self, case, obs):
         k = case["k"]
+        if k == "seq":
+            return ["seq:" + ",".join(str(o[0]) for o in obs[1])]
         head = obs[0] if isinstance(obs[0], str) else str(obs[0])
         ks = [f"{k}:{head}" + (":" + str(obs[1]) if head in ("raise", "template") else "")]
         if k == "charset":
@@ -691,6 +728,12 @@ class C14(core.PropBase):
         return super().shrink(case, budget)
 
     def shrink_candidates(self, case):
+        if case["k"] == "seq":
+            seq = case["seq"]
+            for i in range(len(seq)):
+                if len(seq) > 1:
+                    yield {**case, "seq": seq[:i] + seq[i + 1:]}
+            return
         s = case.get("s", "")
         if len(s) > 400:
             step = max(1, len(s) // 8)
